@@ -147,7 +147,7 @@ pub fn run(ctx: &Ctx) {
         ctx,
         Pt {
             name: "c15.case",
-            cases: ctx.scale(10_000, 400_000),
+            cases: ctx.scale(150_000, 800_000),
             max_len: 900,
             decode: &decode,
             oracle: &oracle,
